@@ -231,6 +231,16 @@ func init() {
 	for _, k := range []string{"sync.(*RWMutex).Lock", "sync.(*RWMutex).Unlock", "sync.(*RWMutex).RLock", "sync.(*RWMutex).RUnlock", "sync.(*Mutex).Lock", "sync.(*Mutex).Unlock"} {
 		libTouches[k] = []string{"*LK"}
 	}
+	// strings.Join: some string (a function of its arguments; the text is not modelled)
+	libModels["strings.Join"] = func(fr *frame, in ssa.Instruction, c *ssa.CallCommon, args []Val, st *State, reach string) Val {
+		return fr.fc.fresh("joined", SString)
+	}
+	// WaitGroup bookkeeping: no effect on the modelled state (blocking is not modelled)
+	for _, k := range []string{"sync.(*WaitGroup).Add", "sync.(*WaitGroup).Done", "sync.(*WaitGroup).Wait"} {
+		libModels[k] = func(fr *frame, in ssa.Instruction, c *ssa.CallCommon, args []Val, st *State, reach string) Val {
+			return nil
+		}
+	}
 	// functions that neither read nor write the modelled heap and whose result is left unconstrained
 	for _, k := range []string{".(error).Error", "context.Background", "context.TODO", "(*github.com/google/badwolf/bql/planner/tracer.Arguments).String"} {
 		libPure[k] = true
@@ -254,6 +264,11 @@ func lockModel(from, to int) libModel {
 		fc := fr.fc
 		pf, ok := args[0].(*PtrField)
 		if !ok {
+			if _, isLocal := args[0].(Term); isLocal {
+				// a mutex that is a local variable (shared only with the closures of this function):
+				// no lock discipline is stated for it; mutual exclusion is not modelled
+				return nil
+			}
 			fc.unsupported("mutex that is not a struct field in %s", fr.fn.Name())
 			return nil
 		}
